@@ -381,7 +381,10 @@ EXTRA = {
     "C08": " The end-to-end slice includes a matrix of 10 places a filter statement can be written (top level, function, "
            "uncalled function, block, loop, if, nested function, closure, match arm, filter action) x 23 patterns / actions "
            "(return, break, continue, reads and writes of enclosing parameters / locals / globals, closures, end filters, "
-           "runtime errors, exit, recursion, packet fields).",
+           "runtime errors, exit, recursion, packet fields). Spec level: TLC runs the bytecode machine spec/VM.tla by itself "
+           "(spec/MC_VM.tla, deadlock checking on) on the code the real compiler emitted for a part of the programs and checks "
+           "NeverStuck (no reachable state in which the real VM would index out of bounds), NoUnderflow, FramesNested, "
+           "EndsBalanced and FetchAligned in every reachable state.",
     "C11": " Law programs cover round(x, n) for every accepted precision (values with at most n binary places are their own "
            "rounding; non-finite values are left alone) and sorting of neighbouring integers far from zero.",
     "C13": " String literals spanning lines include ones that end or start with a line break and ones made of line breaks only.",
